@@ -123,6 +123,24 @@ func activityEntries() []entry {
 	mk("by-same-path-actor-on-other-host", "Announce", h1, str(h2+"/users/O"), false, nil)
 	mk("by-actor-differing-only-in-query", "Announce", h1, str(O+"?alt=1"), false, nil)
 	mk("peer-with-owner-name", "Announce", h1, func() any { a := actor(P, "Owner"); return a }, false, nil)
+	// a URL on the owner's host that redirects to a document served by another host which
+	// claims an id on the owner's host and the owner as its actor: the claim cannot be
+	// verified, at the first look and at every later one
+	out = append(out, entry{Name: "redirect-to-forged-activity/url", Make: func(n int) (any, string) {
+		id := fmt.Sprintf("%s/acts/redirected-%d", h1, n)
+		landing := fmt.Sprintf("%s/landing/act-%d", evil, n)
+		w.Put(landing, world.JSON(M{"type": "Announce", "id": id, "actor": O, "object": h1 + "/notes/N1", "published": old}))
+		w.Put(id, world.Redirect(302, landing))
+		return id, "failure"
+	}})
+	// the same redirect to a document that is honest about where it lives, but is not by the owner
+	out = append(out, entry{Name: "redirect-to-foreign-activity/url", Make: func(n int) (any, string) {
+		id := fmt.Sprintf("%s/acts/moved-%d", h1, n)
+		landing := fmt.Sprintf("%s/acts/moved-%d", evil, n)
+		w.Put(landing, world.JSON(M{"type": "Announce", "id": landing, "actor": evil + "/users/M", "object": h1 + "/notes/N1", "published": old}))
+		w.Put(id, world.Redirect(302, landing))
+		return id, "failure"
+	}})
 	out = append(out, entry{Name: "activity-404/url", Make: func(n int) (any, string) { return h1 + "/acts/missing", "failure" }})
 	out = append(out, entry{Name: "junk-value", Make: func(n int) (any, string) { return 42.0, "failure" }})
 	return out
@@ -151,6 +169,16 @@ func replyEntries() []entry {
 		}
 	}
 	str := func(s string) func(string) any { return func(string) any { return s } }
+	out = append(out, entry{Name: "redirect-to-forged-reply/url", Make: func(n int) (any, string) {
+		id := fmt.Sprintf("%s/notes/redirected-%d", h1, n)
+		landing := fmt.Sprintf("%s/landing/note-%d", evil, n)
+		d := note(id, "forged reply behind a redirect")
+		d["inReplyTo"] = Q
+		d["attributedTo"] = O
+		w.Put(landing, world.JSON(d))
+		w.Put(id, world.Redirect(302, landing))
+		return id, "failure"
+	}})
 	mk("reply-to-Q", h1, str(Q), true, nil)
 	mk("reply-from-other-host", h2, str(Q), true, nil)
 	mk("reply-to-Q-with-fragment", h1, str(Q+"#c1"), true, nil)
@@ -310,8 +338,22 @@ func runListing(r *ev.Report, listing string, es []entry, paged bool) {
 	}
 	got, _, _ := ch.Harvest(uint(len(values)+2), 0)
 	r.Eval(1)
+	judgeListing(r, c, "", got, expect, names)
+	// a second look at the same listing (everything is cached now): the same ground truth
+	item2, ok := pub.New(owner, nil).(pub.Tangible)
+	if !ok || item2.Children() == nil {
+		r.Violation("listing:second-look:length:"+listing, map[string]any{"case": c, "msg": "the owner cannot be opened a second time"})
+		return
+	}
+	got2, _, _ := item2.Children().Harvest(uint(len(values)+2), 0)
+	r.Eval(1)
+	judgeListing(r, c, "second-look:", got2, expect, names)
+}
+
+func judgeListing(r *ev.Report, c listingCase, look string, got []pub.Tangible, expect, names []string) {
+	listing := c.Listing
 	if len(got) != len(expect) {
-		r.Violation("listing:length:"+listing, map[string]any{"case": c, "msg": fmt.Sprintf("%d entries listed, %d items shown (entries must neither be dropped nor multiplied)", len(expect), len(got)), "expect": expect})
+		r.Violation("listing:"+look+"length:"+listing, map[string]any{"case": c, "msg": fmt.Sprintf("%d entries listed, %d items shown (entries must neither be dropped nor multiplied)", len(expect), len(got)), "expect": expect})
 		return
 	}
 	for i := range got {
@@ -326,7 +368,7 @@ func runListing(r *ev.Report, listing string, es []entry, paged bool) {
 			kind = "wrong-item"
 		}
 		base := strings.SplitN(names[i], "/", 2)[0]
-		r.Violation(fmt.Sprintf("listing:%s:%s:%s", kind, listing, base), map[string]any{"case": c, "position": i, "entry": names[i], "shown": g, "expected": expect[i],
+		r.Violation(fmt.Sprintf("listing:%s%s:%s:%s", look, kind, listing, base), map[string]any{"case": c, "position": i, "entry": names[i], "shown": g, "expected": expect[i],
 			"msg": fmt.Sprintf("position %d (%s): shown %s, ground truth %s", i, names[i], g, expect[i])})
 	}
 }
@@ -376,7 +418,7 @@ func main() {
 		"outbox of actor O: 12 activity kinds (by owner: Announce/Like/Create, hosted elsewhere, owner embedded; impostors: same-host peer, foreign actor, missing/unfetchable actor, non-activity, peer named like the owner; forged owner copy from another host) x 4 representations "+
 			"(embedded, URL, stub{id}, stub{id,type}) + 404 + junk; replies of post Q: 14 reply kinds (genuine incl. other host / fragment / forged embedded parent; other parent, trailing slash, none, unfetchable, same path other host, tombstone, actor, foreign author, self-reply) x {embedded, URL}; "+
 			"every single entry, every ordered pair and (thorough) every ordered triple over a reduced set, inline and split across a remote page; 12 author cases (same/foreign host, embedded claims, missing ids on either side, unfetchable, two authors) directly and as an announced object; "+
-			"each listing position compared with ground truth; distinct_nontrivial = listings containing at least one impostor")
+			"entries behind a redirect from the owner's host to a forged or foreign document on another host; each listing position compared with ground truth, at the first look and again at a second look when everything is cached; distinct_nontrivial = listings containing at least one impostor")
 	if *ev.FlagReplay != "" {
 		var d struct {
 			Case listingCase `json:"case"`
